@@ -54,8 +54,10 @@ def sections (f : ByteArray) : List Sect :=
 
 def loads (f : ByteArray) : List Seg := (phdrs f).filter (·.ty == 1)
 
-/-- structurally valid per the quantifier of C11/C12 -/
-def wellFormed (f : ByteArray) : Bool :=
+/-- structurally valid per the quantifier of C11 (`samePhys = false`: p_paddr is free, as long as it is not below
+p_vaddr, so that whatever the loader places "after the image" stays above it) or of C12 (`samePhys = true`:
+p_paddr = p_vaddr) -/
+def wellFormedFor (samePhys : Bool) (f : ByteArray) : Bool :=
   let ls := loads f
   let secs := sections f
   let got := secs.filter (·.name == ".got")
@@ -63,12 +65,18 @@ def wellFormed (f : ByteArray) : Bool :=
   byteAt f 0 == 0x7f && byteAt f 1 == 0x45 && byteAt f 2 == 0x4c && byteAt f 3 == 0x46 &&
   byteAt f 4 == 1 && byteAt f 5 == 2 &&
   1 ≤ ls.length && ls.length ≤ 4 &&
-  ls.all (fun s => s.filesz ≤ s.memsz && s.off + s.filesz ≤ f.size && BASE + s.vaddr + s.memsz ≤ DRAM_HI + 1 && s.paddr == s.vaddr) &&
+  ls.all (fun s => s.filesz ≤ s.memsz && s.off + s.filesz ≤ f.size && BASE + s.vaddr + s.memsz ≤ DRAM_HI + 1 &&
+    (if samePhys then s.paddr == s.vaddr else s.vaddr ≤ s.paddr)) &&
   -- ascending and non-overlapping
   (ls.zip (ls.drop 1)).all (fun (a, b) => a.vaddr + a.memsz ≤ b.vaddr) &&
   got.length ≤ 1 &&
   got.all (fun g => g.size % 4 == 0 && (g.size == 0 || ls.any (fun s => s.vaddr ≤ g.addr && g.addr + g.size ≤ s.vaddr + s.filesz))) &&
   (secs.filter (·.name == ".stack")).length == 1 && (secs.filter (·.name == ".symtab")).length ≤ 1
+
+def wellFormed (f : ByteArray) : Bool := wellFormedFor true f
+
+/-- how far the physical addresses lie above the virtual ones (0 in the domain of C12) -/
+def physSlack (f : ByteArray) : Nat := (loads f).foldl (fun m s => max m (s.paddr - s.vaddr)) 0
 
 /-- image end: the highest PT_LOAD extent -/
 def imageEnd (f : ByteArray) : Nat := (loads f).foldl (fun m s => max m (s.vaddr + s.memsz)) 0
@@ -138,13 +146,15 @@ def expected (f : ByteArray) (args : String) : Expect :=
     er7 := stackEnd - 8, exit := exit }
 
 /-- layout facts of C12: regions ordered, disjoint, inside DRAM -/
-def layoutOk (f : ByteArray) (args : String) : Bool :=
+def layoutOkSlack (slack : Nat) (f : ByteArray) (args : String) : Bool :=
   let stackSize := match (sections f).find? (·.name == ".stack") with | some s => s.addr | none => 0
   let stackLo := BASE + imageEnd f
   let stackEnd := align4 (stackLo + stackSize)
   let argv := align4 (stackEnd + 88)
   let ws := "prog.elf" :: words args
   let total := argv + 4 * (ws.length + 1) + ws.foldl (fun n w => n + w.toUTF8.size + 1) 0
-  total ≤ DRAM_HI + 1 && stackEnd ≥ stackLo + stackSize && argv ≥ stackEnd + 88
+  total + slack ≤ DRAM_HI + 1 && stackEnd ≥ stackLo + stackSize && argv ≥ stackEnd + 88
+
+def layoutOk (f : ByteArray) (args : String) : Bool := layoutOkSlack 0 f args
 
 end H8.Spec.Elf
